@@ -17,7 +17,8 @@ RULE = (
     "interpreters under PYTHONHASHSEED in {0,1,2,3} + 2 seeded random values: the {path: contents} maps "
     "(documented '// Generated using fcp ... on ... by ...@...' stamp line removed) must all be equal; "
     "(b) history: a long-lived process performs 5-30 random parse / truncated-parse / verify / generate / "
-    "reflect operations on OTHER schemas before generating the target; (c) reuse: the same tree "
+    "reflect operations on OTHER schemas (through get_fcp with its default, process-wide logger; in half "
+    "of the histories with one long-lived Generator object per plug-in) before generating the target; (c) reuse: the same tree "
     "object generates twice with each generator and cpp again after dbc and can_c.  Every map is "
     "compared with the PYTHONHASHSEED=0 fresh-process map.  distinct = (schema, generator, "
     "configuration) with a non-empty file map."
@@ -135,7 +136,7 @@ def run(run):
                 return
         for k in range(run.pick(2, 4)):
             hs = [0, seeds[k % len(seeds)]][k % 2]
-            out, err = run_child({"mode": "history", "schemas": paths, "seed": run.seed * 1000 + k}, hs, tmp, "hist%d" % k)
+            out, err = run_child({"mode": "history", "schemas": paths, "seed": run.seed * 1000 + k, "reuse_generators": k % 2 == 1}, hs, tmp, "hist%d" % k)
             if out is None:
                 run.inconclusive_because("history child failed: %s" % err)
                 return
